@@ -403,6 +403,7 @@ func (mm *Mem) poke(a *Alloc, off *smt.Term, b *smt.Term, g *smt.Term) {
 		mm.m.Assert(smt.BNot(g), "mem.rostore", "store to read-only "+a.Name, "oob")
 		return
 	}
+	a.own()
 	if off.IsConst() {
 		if off.Uint() < uint64(a.Size) {
 			o := int(off.Uint())
